@@ -9,10 +9,10 @@
 (* the sequences that stay inside the operator core.                         *)
 EXTENDS Syntax, Json, Randomization
 
-CONSTANTS Mode,      \* "trees" | "mut"
+CONSTANTS Mode,      \* "trees" | "mut" | "both" (trees + mutants of a seeded sample of the trees)
           Tier,      \* "quick" | "thorough"
           Parts      \* the parts of the universe to run
-VARIABLES c, ph
+VARIABLES c, ph, mu
 
 A == <<"var", "a">>
 B == <<"var", "b">>
@@ -140,12 +140,14 @@ FillerSeq ==
         Err(A), If(A, B, None), If(A, B, C), Local(<<Bd("w", A)>>, B), Func(Ps(<<Pm("q")>>, FALSE), A),
         AssertE(As(A, None), B), AssertE(As(A, B), C), Imp("importstr", S1), Paren(A), EmptyObj, Arr(<<>>, FALSE),
         Bin("in", A, <<"superf", "f">>), Bin("in", A, <<"superi", B>>), Bin("+", A, Err(B)),
-        Bin("*", A, If(B, C, None)), Un("-", Func(Ps(<<>>, FALSE), A)) >>
+        Bin("*", A, If(B, C, None)), Un("-", Func(Ps(<<>>, FALSE), A)),
+        Err(InSuper(A)), If(A, InSuper(B), None), If(A, B, InSuper(C)), Func(Ps(<<>>, FALSE), InSuper(A)),
+        Local(<<Bd("w", A)>>, InSuper(B)), Bin("<", A, InSuper(B)) >>
 NFill == Len(FillerSeq)
 D1Descs == {<<"d1", i, f>> : i \in 1..NCtx, f \in 1..NFill}
 D2Idx == (1..NCtx) \X (1..NCtx) \X (1..NFill)
 D2Of(S) == {<<"d2", x[1], x[2], x[3]>> : x \in S}
-D2Descs == IF Tier = "quick" THEN D2Of(RandomSubset(9000, D2Idx)) ELSE D2Of(D2Idx)
+D2Descs == D2Of(RandomSubset(IF Tier = "quick" THEN 9000 ELSE 120000, D2Idx))
 D3Descs == IF Tier = "quick" THEN {}
            ELSE {<<"d3", i, x[1], x[2], x[3]>> : i \in 1..NCtx, x \in RandomSubset(900, D2Idx)}
 
@@ -274,15 +276,19 @@ SwapAt(s, i) == [j \in 1..Len(s) |-> IF j = i THEN s[i + 1] ELSE IF j = i + 1 TH
 DupAt(s, i) == SubSeq(s, 1, i) \o SubSeq(s, i, Len(s))
 RECURSIVE SetToSeq(_)
 SetToSeq(S) == IF S = {} THEN <<>> ELSE LET x == CHOOSE x \in S : TRUE IN <<x>> \o SetToSeq(S \ {x})
-\* p = the minimal print of a tree: one token deleted / duplicated / swapped with its right
-\* neighbour, and one pair of the (required) parentheses removed
+\* p = the minimal print of a tree: one token deleted / duplicated / swapped with its right neighbour
 Mutants(p) ==
-  LET toks == p.t
-      pns == SetToSeq(ParenNodes(p.n)) IN
+  LET toks == p.t IN
   [i \in 1..Len(toks) |-> [kind |-> "del", at |-> i, toks |-> DropAt(toks, i)]]
   \o [i \in 1..Len(toks) |-> [kind |-> "dup", at |-> i, toks |-> DupAt(toks, i)]]
   \o [i \in 1..(Len(toks) - 1) |-> [kind |-> "swap", at |-> i, toks |-> SwapAt(toks, i)]]
-  \o [i \in 1..Len(pns) |-> [kind |-> "unparen", at |-> pns[i][1], toks |-> DropAt(DropAt(toks, pns[i][2]), pns[i][1])]]
+\* the minimal print of a core tree with one pair of its parentheses removed: another tree or no sentence
+Unparens(pp) ==
+  IF ~InCore(pp.t) THEN <<>>
+  ELSE LET pns == SetToSeq(ParenNodes(pp.n)) IN
+       [i \in 1..Len(pns) |->
+          LET tk == DropAt(DropAt(pp.t, pns[i][2]), pns[i][1]) IN
+          [kind |-> "unparen", at |-> pns[i][1], toks |-> tk, sep |-> SepCodes(tk), exp |-> Expected(tk)]]
 MutSample == IF Tier = "quick" THEN 60 ELSE 600
 MutCases(e) ==
   LET ms == Mutants(PrintTree(e, "min")) IN
@@ -291,17 +297,23 @@ MutCases(e) ==
 
 (* One cheap initial state per tree; the work is done when the invariant is    *)
 (* evaluated on the successor (ph = 1), i.e. by TLC's workers in parallel.      *)
+(* mu: the tree is in the seeded sample whose minimal text is mutated.          *)
 Init ==
   /\ ph = 0
   /\ \E i \in Parts :
-       IF Mode = "trees" THEN c \in Part(i)
-       ELSE c \in (IF Cardinality(Part(i)) <= MutSample THEN Part(i) ELSE RandomSubset(MutSample, Part(i)))
-Next == ph = 0 /\ ph' = 1 /\ UNCHANGED c
+       LET P == Part(i)
+           sel == IF Mode = "trees" THEN {}
+                  ELSE IF Cardinality(P) <= MutSample THEN P ELSE RandomSubset(MutSample, P) IN
+       /\ c \in (IF Mode = "mut" THEN sel ELSE P)
+       /\ mu = (c \in sel)
+Next == ph = 0 /\ ph' = 1 /\ UNCHANGED <<c, mu>>
 
 CaseOf(pp, style) == [st |-> style, toks |-> pp.t, sep |-> SepCodes(pp.t), core |-> InCore(pp.t),
                       exp |-> [d |-> "accept", tree |-> pp.n]]
 Laws(tree, pmin, pred) == TreeLaws(tree, pmin, pred)
-Emit(pmin, pred) == PrintT(<<"CASE", ToJson(CaseOf(pmin, "min"))>>) /\ PrintT(<<"CASE", ToJson(CaseOf(pred, "red"))>>)
+Emit(pmin, pred) ==
+  /\ PrintT(<<"CASE", ToJson(CaseOf(pmin, "min"))>>) /\ PrintT(<<"CASE", ToJson(CaseOf(pred, "red"))>>)
+  /\ LET ups == Unparens(pmin) IN \A i \in 1..Len(ups) : PrintT(<<"CASE", ToJson(ups[i])>>)
 MutLaws(ms) == \A i \in 1..Len(ms) : LawRoundTrip(ms[i].toks)
 MutEmit(ms) == \A i \in 1..Len(ms) : PrintT(<<"CASE", ToJson(ms[i])>>)
 
@@ -312,6 +324,9 @@ TreeCheck(tree, emit) ==
 MutCheck(tree, emit) ==
   LET ms == MutCases(tree) IN MutLaws(ms) /\ (emit => MutEmit(ms))
 
-LawsAndEmit == ph = 1 => IF Mode = "trees" THEN TreeCheck(TreeOf(c), TRUE) ELSE MutCheck(TreeOf(c), TRUE)
-LawsOnly == ph = 1 => IF Mode = "trees" THEN TreeCheck(TreeOf(c), FALSE) ELSE MutCheck(TreeOf(c), FALSE)
+Check(emit) ==
+  ph = 1 => /\ (Mode # "mut" => TreeCheck(TreeOf(c), emit))
+            /\ (mu => MutCheck(TreeOf(c), emit))
+LawsAndEmit == Check(TRUE)
+LawsOnly == Check(FALSE)
 =============================================================================
